@@ -15,10 +15,11 @@ EXTENDS OptMeaning, TLC, Json
 CONSTANTS DeclSet,     \* set of [decl, allowed, greedy] configurations
           EnvSet(_),   \* configuration -> set of environments (sequences of byte strings)
           ArgvSet(_),  \* configuration -> set of argument vectors
-          MaxParses    \* number of parse calls on one parser object (C14)
+          MaxParses,   \* number of parse calls on one parser object (C14)
+          EnvChanges   \* BOOLEAN: the process environment may change between two calls on one parser
 
 VARIABLES cfg,         \* the chosen configuration
-          env,         \* the process environment (fixed per behaviour)
+          env,         \* the process environment (changes only between parse calls: ChangeEnv)
           argv,        \* vector of the current parse call
           cursor,      \* index of the next token
           st,          \* per option: [val, list, count, neg, prov]
@@ -55,7 +56,7 @@ BeginParse ==
   /\ cursor' = 1 /\ st' = Fresh /\ onlyPos' = FALSE /\ byDD' = FALSE /\ positionals' = <<>>
   /\ acct' = <<>> /\ chk' = 1
   /\ IF LettersUnique THEN phase' = "scan" /\ reason' = "" /\ hist' = hist
-     ELSE phase' = "error" /\ reason' = "Inconsistent" /\ hist' = Append(hist, [argv |-> argv', res |-> [oc |-> "parser_error", st |-> <<>>, pos |-> <<>>], why |-> "Inconsistent", via |-> "argv"])
+     ELSE phase' = "error" /\ reason' = "Inconsistent" /\ hist' = Append(hist, [argv |-> argv', res |-> [oc |-> "parser_error", st |-> <<>>, pos |-> <<>>], why |-> "Inconsistent", via |-> "argv", env |-> env])
   /\ UNCHANGED <<cfg, env>>
 
 Scanning == phase = "scan" /\ cursor <= Len(argv)
@@ -65,7 +66,7 @@ OptionMode == Scanning /\ ~onlyPos /\ ~IsValueTok(Tok) /\ ~IsDD(Tok)
 
 Fail(why) ==
   /\ phase' = "error" /\ reason' = why
-  /\ hist' = Append(hist, [argv |-> argv, res |-> ErrorOutcome, why |-> why, via |-> "argv"])
+  /\ hist' = Append(hist, [argv |-> argv, res |-> ErrorOutcome, why |-> why, via |-> "argv", env |-> env])
   /\ UNCHANGED <<cfg, env, argv, cursor, st, onlyPos, byDD, positionals, acct, chk>>
 
 Consume(k, entries) ==
@@ -192,7 +193,7 @@ Result == [oc |-> "ok",
 Finish ==
   /\ phase = "check" /\ chk > N
   /\ phase' = "done"
-  /\ hist' = Append(hist, [argv |-> argv, res |-> Result, why |-> "", via |-> "argv"])
+  /\ hist' = Append(hist, [argv |-> argv, res |-> Result, why |-> "", via |-> "argv", env |-> env])
   /\ UNCHANGED <<cfg, env, argv, cursor, st, onlyPos, byDD, positionals, acct, reason, chk>>
 
 ScanStep == ScanPositional \/ ScanTooManyPositionals \/ ScanGreedyMalformed \/ ScanDoubleDash \/ ScanBad
@@ -200,7 +201,17 @@ ScanStep == ScanPositional \/ ScanTooManyPositionals \/ ScanGreedyMalformed \/ S
             \/ ScanToggle \/ ScanNoToggle \/ ScanBundle \/ ScanPolarityConflict
 CheckStep == CheckGiven \/ CheckOtherSource \/ CheckFails
 
-Next == BeginParse \/ ScanStep \/ EndScan \/ CheckStep \/ Finish
+(* Between two calls the process environment may change (setenv by the application, a wrapper script).  The   *)
+(* parser object keeps nothing from it: the next call reads the environment as it is then (C03, C14).  The    *)
+(* machine goes back to "idle", so everything said about a finished call is said about the call's own env.    *)
+ChangeEnv ==
+  /\ EnvChanges /\ phase \in {"idle", "done", "error"} /\ Len(hist) < MaxParses
+  /\ env' \in EnvSet(cfg) \ {env}
+  /\ phase' = "idle" /\ argv' = <<>> /\ cursor' = 1 /\ st' = Fresh /\ onlyPos' = FALSE /\ byDD' = FALSE
+  /\ positionals' = <<>> /\ acct' = <<>> /\ reason' = "" /\ chk' = 1
+  /\ UNCHANGED <<cfg, hist>>
+
+Next == BeginParse \/ ScanStep \/ EndScan \/ CheckStep \/ Finish \/ ChangeEnv
 Spec == Init /\ [][Next]_vars /\ WF_vars(ScanStep \/ EndScan \/ CheckStep \/ Finish)
 
 ------------------------------------------------------------------------------------------------------
@@ -237,8 +248,8 @@ MachineIsMeaning ==
     \/ GreedyOpen(decl, greedy, argv)   \* ... except where the properties leave the outcome open
 (* ... and, C14, on *every* call of a history: what the k-th call returned is the meaning of its vector alone *)
 Repeatable ==
-  \A k \in 1..Len(hist) : \/ hist[k].res = (IF hist[k].via = "inputs" THEN MeaningViaInputs(decl, allowed, greedy, env, hist[k].argv)
-                                           ELSE Meaning(decl, allowed, greedy, env, hist[k].argv))
+  \A k \in 1..Len(hist) : \/ hist[k].res = (IF hist[k].via = "inputs" THEN MeaningViaInputs(decl, allowed, greedy, hist[k].env, hist[k].argv)
+                                           ELSE Meaning(decl, allowed, greedy, hist[k].env, hist[k].argv))
                            \/ GreedyOpen(decl, greedy, hist[k].argv)
                            \/ hist[k].res.oc = "parser_error"
 
@@ -315,10 +326,10 @@ AfterDDEverythingPositional ==
     LET d == MinOf(RoleIdx("dd")) IN \A j \in (d + 1)..Len(argv) : acct[j].role = "pos"
 
 (* export: one case per finished history *)
-CaseRec == [cfg |-> cfg.id, env |-> env, calls |-> hist,
+CaseRec == [cfg |-> cfg.id, env |-> env, calls |-> hist,      \* each call carries the environment it was made in
             open |-> [k \in 1..Len(hist) |-> GreedyOpen(decl, greedy, hist[k].argv)],
             \* expected outcome class of the same calls made through parse(vector<user_input>)
             inputs |-> [k \in 1..Len(hist) |-> IF hist[k].res.oc = "parser_error" THEN "parser_error"
-                                               ELSE MeaningViaInputs(decl, allowed, greedy, env, hist[k].argv).oc]]
+                                               ELSE MeaningViaInputs(decl, allowed, greedy, hist[k].env, hist[k].argv).oc]]
 Emit == (Terminal /\ Len(hist) = MaxParses) => PrintT("CASE " \o ToJson(CaseRec))
 =============================================================================
